@@ -566,8 +566,8 @@ func c14r13b(c *Ctx) {
 	// n: the local incremented in the accepting branch
 	var nObj types.Object
 	ast.Inspect(f.Decl.Body, func(x ast.Node) bool {
-		if inc, ok := x.(*ast.IncDecStmt); ok && inc.Tok == token.INC {
-			nObj = prog.ObjOf(info, inc.X)
+		if incX, incTok, ok := incDecNode(info, x); ok && incTok == token.INC {
+			nObj = prog.ObjOf(info, incX)
 		}
 		return true
 	})
@@ -577,6 +577,9 @@ func c14r13b(c *Ctx) {
 	bad := ""
 	ast.Inspect(f.Decl.Body, func(x ast.Node) bool {
 		if as, ok := x.(*ast.AssignStmt); ok {
+			if _, _, isID := prog.IncDecOf(info, as); isID {
+				return true
+			}
 			for i, l := range as.Lhs {
 				if prog.ObjOf(info, l) == nObj {
 					if as.Tok == token.DEFINE || as.Tok == token.ASSIGN {
